@@ -18,8 +18,8 @@ def _clear_caches(ns_):
             cc_()
 
 PROPERTY = "C09"
-PL_OPS = ["evaluate", "evaluate_propositions", "assume", "reduce", "negate", "errors", "flatten", "to_json", "to_text", "to_short", "to_ge_polyhedron", "solve"]
-CFG_OPS = ["select", "add", "default_prios", "leafs", "ge_polyhedron", "to_json", "evaluate"]
+PL_OPS = ["evaluate", "evaluate_propositions", "assume", "reduce", "negate", "errors", "flatten", "to_json", "to_b64", "to_text", "to_short", "to_ge_polyhedron", "solve"]
+CFG_OPS = ["select", "add", "default_prios", "leafs", "ge_polyhedron", "to_json", "to_b64", "evaluate"]
 REGIONS = ["repeat-evaluate", "repeat-with-equal-hash-different-value", "prefixed-subproposition", "subclass-leaves", "history:add", "history:assume", "history:negate", "history:reduce", "history-cfg", "history-plog"] + ["op:" + o for o in PL_OPS] + ["cfg-op:" + o for o in CFG_OPS] + ["interpretation-names-compound-id", "interpretation-names-top-id", "cache-key-equal-possible"]
 BOUNDS = ("one call of each public operation from a freshly built model (PL family, <=7 compounds) or configurator (CFG family), with symbolic thresholds/signs/boxes "
           "where the operation does not cross the Rust encoder, and symbolic arguments: dictionaries over ALL ids (leaves, sub-propositions, the top id) with symbolic "
@@ -34,7 +34,7 @@ ASSUMPTIONS = ["M4 (int and hash shadows)", "M5 structural", "M6", "M7 for to_ge
 
 def functions(ns):
     A, C_ = ns.pg.AtLeast, ns.cc.StingyConfigurator
-    return [A.assume, A.evaluate, A.evaluate_propositions, A.reduce, A.negate, A.errors, A.flatten, A.to_json, A.to_text, A.to_short, A.to_ge_polyhedron, A.solve,
+    return [A.assume, A.evaluate, A.evaluate_propositions, A.reduce, A.negate, A.errors, A.flatten, A.to_json, A.to_b64, A.to_text, A.to_short, A.to_ge_polyhedron, A.solve,
             A.__hash__, A.__eq__, C_.select, C_.add, C_.default_prios, C_.leafs, C_.ge_polyhedron.fget, ns.cc.Xor.__init__]
 
 
@@ -355,6 +355,8 @@ def run_inst(spec, run):
                 m.flatten()
             elif op == "to_json":
                 m.to_json()
+            elif op == "to_b64":
+                m.to_b64()
             elif op == "to_text":
                 m.to_text()
             elif op == "to_short":
